@@ -618,6 +618,8 @@ class ModuleGen:
             kws.append(ast.keyword(arg=None, value=self.expr(sc, 'dict', depth + 1)))
             if self.chance(.3):
                 kws.append(ast.keyword(arg='kw_after', value=self.expr(sc, 'any', depth + 1)))
+            if self.chance(.3):
+                kws.append(ast.keyword(arg=None, value=self.atom(sc, 'dict') if self.chance(.5) else self.atom(sc, 'obj')))
         return args, kws
 
     def call(self, sc, depth):
